@@ -5,7 +5,7 @@ import itertools
 from ..report import Inconclusive
 from ..py.eff import FRESH, nonfresh, base_origin
 from ..py.guards import AEval, Reach, always_raises
-from ..py.index import u, walk_shallow
+from ..py.index import u, walk_shallow, pos
 from . import common
 from .c19 import get_ord
 
@@ -135,10 +135,10 @@ def c07_2(rep, ix, O):
     zips = calls(f.node, lambda c: isinstance(c.func, ast.Name) and c.func.id == "zip")
     found = False
     for z in zips:
-        srcs = [u(a) for a in z.args]
+        srcs = [u(resolve(f.node, a)) for a in z.args]
         if any(".modes" in s or "_modes" in s for s in srcs):
             found = True
-            first = z.args[0]
+            first = resolve(f.node, z.args[0])
             okz = isinstance(first, ast.Call) and u(first.func) == "sorted" and len(first.args) == 1 and not first.keywords and len(z.args) == 2
             second = resolve(f.node, z.args[1]) if len(z.args) == 2 else None
             rep.check(okz, R, ix.site(f, z), "mode map zips sorted(<included program's modes>) (plain increasing order, no key/reverse) with the call-site modes",
@@ -295,7 +295,7 @@ def c07_5(rep, ix):
     fs = calls(f.node, lambda c: u(c.func).endswith("FileStream"))
     early = False
     for s in f.node.body:
-        if fs and s.lineno < fs[0].lineno and isinstance(s, (ast.For, ast.If)):
+        if fs and pos(s) < pos(fs[0]) and isinstance(s, (ast.For, ast.If)):
             if any(isinstance(x, ast.Return) for x in ast.walk(s)) and "filename" in u(s):
                 early = True
     rep.check(early, R, ix.site(f), "a file that was already included returns before it is parsed again", key="dedupe")
